@@ -359,6 +359,19 @@ void rateMonitoring(vf::Ctx & c)
   Workload w = genWorkload(c, 6);
   c.commit();
   RateMonitoring mon(10.0);  // window 20
+  // the exact rates a single-threaded run of the same stamp sequence produces (heartbeats only ever force 0, and the
+  // period queue is not touched by them): every non-zero rate a reader sees must be one of these, bit for bit
+  std::set<double> sequentialRates;
+  {
+    RateMonitoring ref(10.0);
+    vf::Rng rng(w.seed);
+    long long t = 0;
+    for (int k = 1; k <= w.writerOps; ++k) {
+      t += 50000000LL + static_cast<long long>(rng.below(150000001ULL));
+      sequentialRates.insert(ref.update(durationFromNanoSecond(t)));
+      if (w.yieldEvery > 0) {(void)rng.below(static_cast<uint64_t>(w.yieldEvery));}   // keep the stream aligned with the writer's
+    }
+  }
   std::atomic<bool> done{false};
   std::atomic<long long> now{0};
   StartGate gate(w.readers + 2);
@@ -376,6 +389,8 @@ void rateMonitoring(vf::Ctx & c)
           res.ops++;
           if (!(rate == 0.0 || (rate >= 5.0 * (1 - 1e-9) && rate <= 20.0 * (1 + 1e-9)))) {
             if (res.error.empty()) {res.error = vf::fmt("RateMonitoring: reader %d got rate %.17g, neither 0 nor within [5,20] Hz given periods of 50..200 ms", r, rate);}
+          } else if (rate != 0.0 && !sequentialRates.count(rate)) {
+            if (res.error.empty()) {res.error = vf::fmt("RateMonitoring: reader %d got rate %.17g, which no sequential prefix of the stamp sequence produces", r, rate);}
           }
           if (rate != last) {res.distinct++;}
           last = rate;
